@@ -5,7 +5,8 @@ Open Scope Z_scope.
 
 Definition mode_of (n : Z) : mode := if n =? 1 then MAppend else if n =? 2 then MPipe else MWrite.
 Definition fmt_of (n : Z) : fmt :=
-  if n =? 1 then FNidx else if n =? 2 then FJsonl else if n =? 3 then FCsv else if n =? 4 then FJson else FDkvp.
+  if n =? 1 then FNidx else if n =? 2 then FJsonl else if n =? 3 then FCsv else if n =? 4 then FJson
+  else if n =? 5 then FTsv else if n =? 6 then FXtab else FDkvp.
 
 (* op as written by the driver: (target, kind, record, text); kind 0 = record, 1 = string *)
 Definition op_of (o : bytes * Z * record * bytes) : op :=
